@@ -74,12 +74,18 @@ func (fx *FuncCtx) queryWith(ob *Obligation, probes []string, hyp string) string
 		}
 	}
 	var hidden map[string]bool
-	if fx.ct != nil && fx.ct.Uses != nil && ob.Kind != "inv-entry" {
+	if fx.ct != nil && fx.ct.Uses != nil {
 		// `uses hidden: t1 t2 ...`: hypotheses left out of every obligation whose own list does not name them
 		if list, ok := fx.ct.Uses["hidden"]; ok {
 			hidden = map[string]bool{}
 			for _, u := range list {
 				hidden[u] = true
+			}
+			if ob.Kind == "inv-entry" && ob.Clause != nil {
+				// an invariant's entry obligation sees every visible hypothesis plus the hidden ones its own list names
+				for _, u := range fx.ct.Uses[ob.Clause.Label] {
+					delete(hidden, u)
+				}
 			}
 		}
 	}
